@@ -649,3 +649,94 @@ mod tests {
         }
     }
 }
+
+/// Verification hooks (feature `verif`): the connection-closed report of one connection.
+#[cfg(feature = "verif")]
+pub mod verif_hooks {
+    use super::*;
+    use crate::transport::manager::ProtocolContext;
+    use std::task::{RawWaker, RawWakerVTable, Waker};
+
+    /// A protocol set with `n` installed protocols and the receiving ends of all its channels.
+    pub struct Rig {
+        set: ProtocolSet,
+        names: Vec<ProtocolName>,
+        protocol_rx: Vec<Option<Receiver<InnerTransportEvent>>>,
+        manager_rx: Receiver<TransportManagerEvent>,
+    }
+
+    const NAMES: [&str; 3] = ["/verif/a", "/verif/b", "/verif/c"];
+
+    pub fn new_rig(n: usize, channel_capacity: usize) -> Rig {
+        let (mgr_tx, manager_rx) = channel(16);
+        let mut protocols = HashMap::new();
+        let mut names = Vec::new();
+        let mut protocol_rx = Vec::new();
+        for name in NAMES.iter().take(n) {
+            let (tx, rx) = channel(channel_capacity);
+            let name = ProtocolName::from(*name);
+            protocols.insert(
+                name.clone(),
+                ProtocolContext {
+                    codec: ProtocolCodec::Identity(32),
+                    tx,
+                    fallback_names: Vec::new(),
+                    keep_alive: SubstreamKeepAlive::Yes,
+                },
+            );
+            names.push(name);
+            protocol_rx.push(Some(rx));
+        }
+        let set = ProtocolSet::new(ConnectionId::from(0usize), mgr_tx, Default::default(), protocols);
+        Rig { set, names, protocol_rx, manager_rx }
+    }
+
+    /// Protocol `i` has shut down: its receiver is gone.
+    pub fn drop_protocol(rig: &mut Rig, i: usize) {
+        rig.protocol_rx[i] = None;
+    }
+
+    /// Protocol `i` is busy: its channel is filled to capacity with unrelated events.
+    pub fn clog_protocol(rig: &mut Rig, i: usize, peer: PeerId) {
+        let tx = rig.set.protocols.get(&rig.names[i]).expect("protocol exists").tx.clone();
+        while tx.try_send(InnerTransportEvent::DialFailure { peer, addresses: Vec::new() }).is_ok() {}
+    }
+
+    fn noop_waker() -> Waker {
+        fn clone(_: *const ()) -> RawWaker { RawWaker::new(std::ptr::null(), &VTABLE) }
+        fn noop(_: *const ()) {}
+        static VTABLE: RawWakerVTable = RawWakerVTable::new(clone, noop, noop, noop);
+        unsafe { Waker::from_raw(RawWaker::new(std::ptr::null(), &VTABLE)) }
+    }
+
+    /// One poll of `report_connection_closed`: `None` while it is blocked on a busy protocol, else `Some(is_ok)`.
+    pub fn report_connection_closed_once(rig: &mut Rig, peer: PeerId, connection_id: ConnectionId) -> Option<bool> {
+        let mut future = Box::pin(rig.set.report_connection_closed(peer, connection_id));
+        let waker = noop_waker();
+        let mut cx = Context::from_waker(&waker);
+        match std::future::Future::poll(future.as_mut(), &mut cx) {
+            Poll::Ready(result) => Some(result.is_ok()),
+            Poll::Pending => None,
+        }
+    }
+
+    /// How many `ConnectionClosed` reports protocol `i` has received (`None` if it has shut down).
+    pub fn closed_reports_of(rig: &mut Rig, i: usize) -> Option<usize> {
+        let rx = rig.protocol_rx[i].as_mut()?;
+        let mut n = 0;
+        while let Ok(event) = rx.try_recv() {
+            if let InnerTransportEvent::ConnectionClosed { .. } = event {
+                n += 1;
+            }
+        }
+        Some(n)
+    }
+
+    pub fn manager_reports(rig: &mut Rig) -> usize {
+        let mut n = 0;
+        while rig.manager_rx.try_recv().is_ok() {
+            n += 1;
+        }
+        n
+    }
+}
